@@ -121,3 +121,10 @@ Lemma match_refuted : let sp := (fun c => N.eqb c 32 || N.eqb c 10)%N in
   is_w3c_prefix_match sp [71; 79; 10]%N = true /\ ncnameb [71; 79; 10]%N = false /\
   is_w3c_curie_match sp [97; 58; 98; 32; 99]%N = true /\ w3c_curie_spec sp [97; 58; 98; 32; 99]%N = false.
 Proof. vm_compute. auto. Qed.
+
+(* the predicate the run evaluates on the implementation's answers accepts the model's answers on every string *)
+Theorem P_C20_model s spaces : valid_w3c spaces = true -> P_C20 (sp_of spaces) s (model_w3c (sp_of spaces) s) = true.
+Proof.
+  unfold valid_w3c, P_C20, model_w3c, spec_w3c. intro V. apply negb_true_iff in V.
+  rewrite prefix_is_ncname, (curie_is_spec _ V). destruct (ncnameb s), (w3c_curie_spec (sp_of spaces) s); reflexivity.
+Qed.
